@@ -95,8 +95,8 @@ def generate(seed, tier="quick", mode=None, child=False, **kw):
     o = GC.gen_opts(r, features=feats, cli_safe=True, j9=True)
     if "words" in feats:
         GC.add_words(r, o, n=r.randint(2, 4))
-    secrets = GC.gen_secrets(r, r.randint(1, 4), classes=["text", "sha", "sha", "md5", "t7", "num", "hex", "j9p"],
-                             words=o["words"] or ())
+    secrets = GC.gen_secrets(r, r.randint(1, 4), classes=["text", "sha", "sha", "md5", "t7", "num", "hex", "j9p", "c9", "j9p-num"] + (
+        ["md5-long"] if r.random() < 0.2 else []), words=o["words"] or ())
     if r.random() < 0.25:
         o["reserved"] = ["zebra%d" % r.randint(0, 9)]
     ctx = GC.make_ctx(r, o)
